@@ -114,6 +114,33 @@ def gen_plans(run):
             else:
                 p.append(dict(op="Clear", arg=0, w=run.rng.choice(live)))
         plans.append(p)
+    # the sparsest balanced trees (Fibonacci trees: depth about 1.44 log2 n), built without rotations by level-order insertion,
+    # left-leaning and right-leaning; then every traversal, a clone, and changes on both
+    def fib_tree(h, lean):
+        if h < 0:
+            return None
+        a, b = fib_tree(h - 1, lean), fib_tree(h - 2, lean)
+        return [a, b] if lean == "L" else [b, a]
+    def number(t, nxt):
+        if t is None:
+            return None
+        l = number(t[0], nxt)
+        nxt[0] += 1
+        k = nxt[0]
+        r = number(t[1], nxt)
+        return (l, k, r)
+    for h in ((4, 7, 9, 13) if run.quick() else (4, 7, 9, 11, 13, 16)):
+        for lean in ("L", "R"):
+            t = number(fib_tree(h, lean), [0])
+            order, level = [], [t]
+            while level:
+                order += [x[1] for x in level]
+                level = [c for x in level for c in (x[0], x[2]) if c is not None]
+            n = len(order)
+            p = [dict(op="Reset", nv=n, ty="int")] + [dict(op="Add", arg=v, w=1, full=(i == n - 1)) for i, v in enumerate(order)]
+            p += [dict(op="Clone", arg=0, src=1, dst=2, w=1, full=True), dict(op="Remove", arg=order[-1], w=2, full=True),
+                  dict(op="Remove", arg=order[0], w=1, full=True), dict(op="Add", arg=order[-1], w=2, full=True)]
+            plans.append(p)
     # "Clone works for a tree of any size": large trees built in ascending / seeded order, cloned, then both copies changed
     for n in ((255, 1000) if run.quick() else (255, 1000, 5000, 20000)):
         for order in ("asc", "rnd"):
